@@ -107,6 +107,56 @@ class DepartureSpec(Spec):
         return departure.det_cases(tier)
 
 
+REAL_CLIENT = ["pyrtma.client (real Client / client_context objects driven through their public API)"]
+
+
+class ClientSubSpec(Spec):
+    prop = "C02"
+    harness = "clientsub"
+    level = "exploration"
+    batch = 40
+    rule = ("one run = a real pyrtma.Client connected through the fake socket to the real manager executes a seeded "
+            "history (<=12) of subscribe / unsubscribe / pause / resume with every argument shape, the bulk "
+            "variants, both scoped contexts (enter - probe - exit, lists overlapping the current state) and "
+            "reconnects; after every operation a raw prober publishes one message of each universe type and the set "
+            "that arrives on the client's socket is compared with what the client reports.  non-trivial = the run "
+            "visited more than one client subscription state; distinct = distinct event-log digest; model_states = "
+            "distinct (subscribed, paused) client states visited")
+    expected_probes = ("op_subscribe", "op_pause", "op_resume", "op_sub_ctx", "op_pause_ctx", "refused_ops",
+                       "ctx_overlaps_subscribed", "ctx_overlaps_paused", "op_while_sub_all", "op_reconnect")
+    components = {"real": REAL_MANAGER + REAL_CLIENT, "stub": STUB_NET}
+    assumptions = ["model-free: client and manager are compared with each other, the statement's own criterion",
+                   "all connections writable during probes (a drop would be a legitimate non-delivery)"]
+
+    def run(self, choices, forced=None):
+        from harness import clientsub
+        return clientsub.run(choices, forced)
+
+
+class IdentitySpec(Spec):
+    prop = "C06"
+    harness = "identity"
+    level = "exploration"
+    batch = 20
+    rule = ("one run = a seeded history (2-13 steps) of connects and disconnects by several participants mixing entry "
+            "points (real Client.connect, real client_context, raw CONNECT, raw CONNECT_V2, raw CONNECT_V2+CONNECT), "
+            "requested ids (0, in range, 1, 99, 100, 101, 200, -1, 32767), allow_multiple / logger / daemon flags and "
+            "names (empty, shared, distinct, message_manager), plus bursts of 30-130 sequential dynamic connects that "
+            "wrap the dynamic-id cursor with some ids held live; after every step a directed probe is published to "
+            "every live id.  non-trivial = more than one connect attempt; distinct = distinct event-log digest")
+    expected_probes = ("must_accept_checked", "must_refuse_checked", "dynamic_id_checked", "wire_options_checked",
+                       "client_info_checked", "dyn_burst_110", "dyn_burst_130", "dynamic_id_high", "client_ctor_refused",
+                       "fanout>1")
+    components = {"real": REAL_MANAGER + REAL_CLIENT, "stub": STUB_NET}
+    assumptions = ["explicit id exactly 100 and a unique newcomer reusing the name of a multi-instance incumbent are "
+                   "don't-care (statement silent, client and manager disagree today)",
+                   "all connections writable (drops are C14's subject)"]
+
+    def run(self, choices, forced=None):
+        from harness import identity
+        return identity.run(choices, forced)
+
+
 _SPECS = {}
 
 
@@ -123,6 +173,8 @@ def _register():
     _SPECS["C14"] = s
     _SPECS["C03"] = HostileSpec()
     _SPECS["C07"] = DepartureSpec()
+    _SPECS["C02"] = ClientSubSpec()
+    _SPECS["C06"] = IdentitySpec()
 
 
 def get_spec(prop: str) -> Spec:
